@@ -4553,6 +4553,134 @@ def c17_vourlaki_mixture():
     return go()
 
 
+def c16_integration_event(K):
+    """Event recording in the numerical layer (mechanism 5 of C16): what Integration.{one..five}_pops append to dadi.Demes.cache.
+    For every T > initial_t (initial_t symbolic, not just 0) and every deme_ids value:
+      * all parameters scalar (K = 1..3): exactly one IntegrationConst(duration = T - initial_t, start_sizes = [nu_1..nu_K],
+        mig = [m_12, m_13, .., m_K(K-1)] row by row, deme_ids = the caller's) is appended before the constant-parameter integrator runs;
+      * parameters functions of time, one time step (K = 1..5): exactly one IntegrationNonConst(history, deme_ids = the caller's) is appended;
+        the history has one entry per time point, entry = [t, [nu_k(t)], [m_ij(t) row by row]]; the last time stamp minus the first is
+        T - initial_t (this difference is what the event's duration becomes and what Demes.output turns into generations) and the sizes
+        and rates of the first / last entry are those at initial_t / T."""
+    name = {1: 'one_pop', 2: 'two_pops', 3: 'three_pops', 4: 'four_pops', 5: 'five_pops'}[K]
+    oid = 'C16/Integration.py:%s/event-recorded' % name
+    fn = 'dadi/Integration.py::' + name
+
+    @guarded(oid, fn)
+    def go():
+        sfx = (lambda k: '') if K == 1 else (lambda k: str(k))
+        T, t0 = z3.Reals('T t0')
+        hy = [T > t0]
+        ids = Tm('deme_ids')
+        out = []
+        pairs = [(i, j) for i in range(1, K + 1) for j in range(1, K + 1) if i != j]
+
+        def policy(fr):
+            if fr.qualname == 'ensure_1arg_func':
+                return lambda ex_, f_, a, k_: a[0] if not is_scalar(exact(a[0])) else PyFn(lambda t, _c=a[0]: _c, 'const')
+            if fr.qualname == '_compute_dt':
+                def cdt(ex_, f_, a, k_):
+                    d = ex_.ctx.fresh('dt')
+                    ex_.ctx.pc.append(d >= T - t0)
+                    ex_.ctx.pc.append(d > 0)
+                    return d
+                return cdt
+            return 'abstract'
+
+        def events(p):
+            ev = [t for e in p.log if e[0] == 'call' and 'dadi.Demes.Integration' in str(e[1]) for t in [e[2]]]
+            app = [e for e in p.log if e[0] == 'mutate' and e[2] == 'append' and isinstance(e[1], VList) and e[1].items and any(e[1].items[-1] is t for t in ev)]
+            return ev, app
+
+        def kwof(t):
+            return {x[1]: x[2] for x in t.args if isinstance(x, tuple) and x and x[0] == 'kw'}
+
+        def lst(v):
+            return list(v.items) if isinstance(v, VList) else list(v)
+        for mode in (['const'] if K <= 3 else []) + ['functions']:
+            o = '%s.%s' % (oid, mode)
+            ex = Executor(policy=policy, max_paths=64)
+            ex.module_overrides[('dadi.Integration', 'cuda_enabled')] = False
+            ex.module_overrides[('dadi.Integration', 'use_delj_trick')] = z3.Bool('use_delj_trick')
+            f = ex.func('dadi/Integration.py', name)
+            kw = dict(initial_t=t0, deme_ids=ids)
+            fs = {}
+
+            def val(nm):
+                if mode == 'const':
+                    fs[nm] = z3.Real(nm)
+                    return fs[nm]
+                g = uf(nm + '_of_t')
+                fs[nm] = g
+                return PyFn(lambda t, _g=g: _g(to_real(t)), nm + '_f')
+            for k in range(1, K + 1):
+                kw['nu' + sfx(k)] = val('nu' + sfx(k))
+            for i, j in pairs:
+                kw['m%d%d' % (i, j)] = val('m%d%d' % (i, j))
+            at = (lambda nm, tt: fs[nm]) if mode == 'const' else (lambda nm, tt: fs[nm](tt))
+            paths = ex.run(f, [Tm('phi'), Tm('xx'), T], kw, base_pc=hy)
+            rets = [p for p in paths if p.outcome == 'return']
+            if not rets:
+                out.append(struct(o, False, 'no returning path: %r' % paths[:2], fn, undecided=True))
+                continue
+            for pi, p in enumerate(rets):
+                op = '%s.path%d' % (o, pi)
+                ev, app = events(p)
+                want_cls = 'IntegrationConst' if mode == 'const' else 'IntegrationNonConst'
+                one = len(ev) == 1 and want_cls in ev[0].op and len(app) == 1
+                out.append(struct(op + '.one-event', one, 'exactly one %s constructed and appended to the event log (constructed: %s, appended: %d)'
+                                  % (want_cls, [t.op for t in ev], len(app)), fn, finding_key='C16/event-recording/%s' % name))
+                if not one:
+                    continue
+                d = kwof(ev[0])
+                pos = [x for x in ev[0].args if not (isinstance(x, tuple) and x and x[0] == 'kw')]
+                goals = []
+                ok_ids = d.get('deme_ids') is ids
+                if mode == 'const':
+                    if 'duration' not in d and pos:
+                        d['duration'] = pos[0]
+                    try:
+                        goals.append((to_real(exact(d['duration'])) == T - t0, 'duration == T - initial_t'))
+                        sz = lst(d['start_sizes'])
+                        goals.append((z3.BoolVal(len(sz) == K), '%d start sizes' % K))
+                        for k, x in zip(range(1, K + 1), sz):
+                            goals.append((to_real(exact(x)) == at('nu' + sfx(k), t0), 'start_sizes[%d] == nu%s' % (k - 1, sfx(k))))
+                        if K > 1:
+                            mg = lst(d['mig'])
+                            goals.append((z3.BoolVal(len(mg) == len(pairs)), '%d migration rates' % len(pairs)))
+                            for (i, j), x in zip(pairs, mg):
+                                goals.append((to_real(exact(x)) == at('m%d%d' % (i, j), t0), 'mig entry == m%d%d' % (i, j)))
+                    except (KeyError, TypeError, AttributeError) as e_:
+                        goals.append((z3.BoolVal(False), 'event fields: %r' % (e_,)))
+                else:
+                    try:
+                        hist = lst(d['history'] if 'history' in d else pos[0])
+                        rows = [lst(r) for r in hist]
+                        goals.append((z3.BoolVal(len(rows) >= 2), 'history has a first and a last time point'))
+                        goals.append((to_real(exact(rows[-1][0])) - to_real(exact(rows[0][0])) == T - t0, 'history[-1].t - history[0].t == T - initial_t'))
+                        for r, tt, lab in ((rows[0], t0, 'first'), (rows[-1], T, 'last')):
+                            sz, mg = lst(r[1]), lst(r[2])
+                            goals.append((z3.BoolVal(len(sz) == K and len(mg) == len(pairs)), '%s entry: %d sizes and %d rates' % (lab, K, len(pairs))))
+                            for k, x in zip(range(1, K + 1), sz):
+                                goals.append((to_real(exact(x)) == at('nu' + sfx(k), tt), '%s sizes[%d] == nu%s at that time' % (lab, k - 1, sfx(k))))
+                            for (i, j), x in zip(pairs, mg):
+                                goals.append((to_real(exact(x)) == at('m%d%d' % (i, j), tt), '%s rates: m%d%d at that time' % (lab, i, j)))
+                        for ri, r in enumerate(rows[1:-1]):
+                            tt = to_real(exact(r[0]))
+                            for k, x in zip(range(1, K + 1), lst(r[1])):
+                                goals.append((to_real(exact(x)) == at('nu' + sfx(k), tt), 'entry %d sizes at its own time stamp' % (ri + 1)))
+                    except (KeyError, TypeError, AttributeError, IndexError) as e_:
+                        goals.append((z3.BoolVal(False), 'event fields: %r' % (e_,)))
+                mm = discharge(goals, list(hy) + list(p.pc))
+                out.append(struct(op + '.fields', mm is None and ok_ids,
+                                  mm or ('deme_ids is not the caller\'s' if not ok_ids else
+                                         ('IntegrationConst(duration = T - initial_t, start_sizes, mig row by row, deme_ids)' if mode == 'const' else
+                                          'IntegrationNonConst(history spanning T - initial_t with the sizes and rates at initial_t and T, deme_ids)')),
+                                  fn, finding_key='C16/event-recording/%s/%s' % (name, mode)))
+        return out
+    return go()
+
+
 def c16_export_names():
     """Demes.output(): how deme names are carried down the event log when an event has none of its own (the loop over (older, younger) pairs):
        Split -> fresh names, one more than before; Remove(k) -> the older names without the k-th (1-based); Reorder(neworder) -> name k of the younger
